@@ -5,16 +5,14 @@ From Coq Require Import Lia Permutation.
 From Algo.C16 Require Import Model Spec.
 Local Open Scope Z_scope.
 
-Section Facts.
+(** the two searches, for one equality function and one comparator *)
+Section Search.
   Variable A : Type.
   Variable eqb : A -> A -> bool.
   Variable cmp : A -> A -> Z.
-  Variable draw : nat -> nat.
 
   Notation lfind := (lfind A eqb).
   Notation bsearch := (bsearch A cmp).
-  Notation find := (find A eqb cmp).
-  Notation contains := (contains A eqb cmp).
 
   (** ** linear search *)
   Notation memb := (memb A eqb).
@@ -86,13 +84,27 @@ Section Facts.
     exists b, i. split; [exact H1|]. split; [lia|]. intros Hb. destruct (H3 Hb). split; [lia|assumption].
   Qed.
 
+End Search.
+
+(** sets: [cmp c] is the comparator of the sorted sets of kind [Sorted c] *)
+Section Facts.
+  Variable A : Type.
+  Variable eqb : A -> A -> bool.
+  Variable cmp : nat -> A -> A -> Z.
+  Variable draw : nat -> nat.
+
+  Notation lfind := (lfind A eqb).
+  Notation find := (find A eqb cmp).
+  Notation contains := (contains A eqb cmp).
+  Notation memb := (memb A eqb).
+
   (** ** find / contains never fail *)
   Lemma find_total : forall k l v,
     exists i, find k l v = Ok i /\ (i = -1 \/ 0 <= i < Z.of_nat (length l)).
   Proof.
     intros k l v. destruct k; simpl.
-    1,2: eexists; split; [reflexivity|]; destruct (lfind_range l v 0 ltac:(lia)); [now left|right; lia].
-    destruct (bsearch_top_total l v) as (b & i & H1 & H2 & H3). rewrite H1. simpl.
+    1,2: eexists; split; [reflexivity|]; destruct (lfind_range A eqb l v 0 ltac:(lia)); [now left|right; lia].
+    destruct (bsearch_top_total A (cmp c) l v) as (b & i & H1 & H2 & H3). rewrite H1. simpl.
     destruct b; eexists; split; try reflexivity; [right|now left].
     destruct (H3 eq_refl). lia.
   Qed.
@@ -108,10 +120,10 @@ Section Facts.
     destruct (i =? -1); simpl; [reflexivity|exact IH].
   Qed.
 
-  Lemma hasb_linear : forall k l v, k <> Sorted -> hasb k l v = memb l v.
+  Lemma hasb_linear : forall k l v, linear k -> hasb k l v = memb l v.
   Proof.
-    intros k l v Hk. unfold hasb. destruct k; try congruence; simpl;
-      rewrite lfind_memb by lia; apply negb_involutive.
+    intros k l v Hk. unfold hasb. destruct k; try (destruct Hk); simpl;
+      rewrite (lfind_memb A eqb) by lia; apply negb_involutive.
   Qed.
 
   (** ** add_plan / remove_plan never fail and stay within bounds *)
@@ -121,17 +133,17 @@ Section Facts.
     intros k l v. destruct k.
     1,2: unfold add_plan; rewrite contains_hasb; simpl; eexists; split; [reflexivity|];
          intros pos; destruct (hasb _ l v && true); intros H; inversion H; lia.
-    unfold add_plan. destruct (bsearch_top_total l v) as (b & i & H1 & H2 & H3). rewrite H1. simpl.
+    unfold add_plan. destruct (bsearch_top_total A (cmp c) l v) as (b & i & H1 & H2 & H3). rewrite H1. simpl.
     destruct b; [eexists; split; [reflexivity|discriminate]|].
     destruct (i <? 0) eqn:E; [apply Z.ltb_lt in E; lia|].
     eexists; split; [reflexivity|]. intros pos H. inversion H. lia.
   Qed.
 
-  Lemma add_plan_linear : forall k l v, k <> Sorted ->
+  Lemma add_plan_linear : forall k l v, linear k ->
     add_plan A eqb cmp k l v = Ok (if memb l v then None else Some (length l)).
   Proof.
-    intros k l v Hk. destruct k; try congruence; unfold add_plan; rewrite contains_hasb; simpl;
-      rewrite andb_true_r, hasb_linear by congruence; reflexivity.
+    intros k l v Hk. destruct k; try (destruct Hk); unfold add_plan; rewrite contains_hasb; simpl;
+      rewrite andb_true_r, hasb_linear by exact I; reflexivity.
   Qed.
 
   Lemma remove_plan_total : forall k l v,
